@@ -122,6 +122,33 @@ def render(comps, rnd, layout):
     return out
 
 
+def name_split(idx, rep, rid):
+    """`name.q1.q2.q3` → (name, [q1, q2, q3]) for every order of up to three qualifiers of different lengths, short and long names, and a
+    quoted name containing a dot — ExpressionUtility.get_name_and_qualifiers interpreted directly"""
+    import itertools
+    fi = idx.method("ExpressionUtility", "get_name_and_qualifiers")
+    rep.analysed(fi, idx.method("ExpressionUtility", "_next_qual"))
+    quals = ["onmatch", "latch", "once", "k", "nocontrib"]
+    bad = None
+    n = 0
+    for nm in ("x", "firstname"):
+        for k in range(0, 4):
+            for qs in itertools.permutations(quals, k):
+                text = ".".join((nm,) + qs)
+                it = Interp(idx, types={"cls": "ExpressionUtility", "self": "ExpressionUtility"}, inline_all={"ExpressionUtility"})
+                ps = it.run_all(fi, args={"name": text})
+                n += 1
+                if len(ps) != 1 or ps[0].result != ("return", (nm, list(qs))):
+                    bad = bad or f"{text!r} splits into {[p.result for p in ps][:2]}, documented ({nm!r}, {list(qs)})"
+    for text, want in (('"first.name".latch.once', ("first.name", ["latch", "once"])), ('"a b"', ("a b", []))):
+        it = Interp(idx, types={"cls": "ExpressionUtility", "self": "ExpressionUtility"}, inline_all={"ExpressionUtility"})
+        ps = it.run_all(fi, args={"name": text})
+        n += 1
+        if len(ps) != 1 or ps[0].result != ("return", want):
+            bad = bad or f"{text!r} splits into {[p.result for p in ps][:2]}, documented {want}"
+    rep.check(bad is None, rid, f"{fi.file}::ExpressionUtility.get_name_and_qualifiers split table", bad or f"{n} names", K.where(fi, fi.node))
+
+
 def run(idx, rep, tier):
     rep.explanation = (
         "The match grammar string is extracted from the source; it builds as LALR(1) without conflicts (one tree per token sequence) and is "
@@ -139,6 +166,7 @@ def run(idx, rep, tier):
     mm = MatchModel(idx)
     rep.analysed(mm.fparse, *[m for n, m in mm.tcls.methods.items() if n != "__init__"], idx.method("ExpressionUtility", "get_name_and_qualifiers"),
                  idx.method("ExpressionUtility", "_parse_quoted"))
+    name_split(idx, rep, "R2")
     # ---- R1 static
     try:
         lark.Lark(mm.gsrc, parser="lalr", start=mm.ctor.get("start", "match"))
